@@ -48,6 +48,16 @@ V3 == { [fam |-> "sgr2", params |-> <<a, b, c>>, input |-> Bytes4("sgr2", a, b, 
       \cup { [fam |-> "sgr2", params |-> <<b, a, c>>, input |-> CSI \o <<51, 56, COLON, 50, COLON, COLON>> \o P(b) \o <<COLON>> \o P(a) \o <<COLON>> \o P(c) \o <<109>>] :
           a \in {<<0>>, <<2,5,6>>}, b \in ParamStrs, c \in {<<7>>, <<2,5,6>>} }
       \cup { [fam |-> "sgr5", params |-> <<a>>, input |-> CSI \o <<51, 56, COLON, 53, COLON>> \o P(a) \o <<109>>] : a \in ParamStrs }
+\* OSC colour replies with components of any length (the digit strings read as hexadecimal): OSC 11;rgb:a/b/00 ST and OSC 4;1;rgb:00/a/b BEL
+Zeros(n) == [i \in 1..n |-> 0]
+\* zero-padded components: the value fits any integer type, only the LENGTH is extreme
+Padded == { Zeros(n) \o <<9, 9>> : n \in {2, 3, 6, 14, 15, 16, 17, 18, 30, 62} }
+VO == { [fam |-> "oscrgb", params |-> <<a, b>>, input |-> OSC \o <<49, 49, SEMI, 114, 103, 98, 58>> \o P(a) \o <<47>> \o P(b) \o <<47, 48, 48>> \o ST] :
+          a \in Padded, b \in {<<0>>} \cup Padded }
+      \cup { [fam |-> "oscrgb", params |-> <<a, b>>, input |-> OSC \o <<49, 49, SEMI, 114, 103, 98, 58>> \o P(a) \o <<47>> \o P(b) \o <<47, 48, 48>> \o ST] :
+          a \in ParamStrs, b \in {<<0>>, <<2,5,5>>, Nines(20)} }
+      \cup { [fam |-> "oscrgb", params |-> <<a, b>>, input |-> OSC \o <<52, SEMI, 49, SEMI, 114, 103, 98, 58, 48, 48, 47>> \o P(a) \o <<47>> \o P(b) \o <<7>>] :
+          a \in ParamStrs, b \in {<<0>>, Nines(40)} }
 \* UTF-8: scalar values at every length boundary and around the surrogate gap
 Scalars == {0, 1, 27, 65, 127, 128, 255, 2047, 2048, 4095, 55295, 57344, 65533, 65535, 65536, 131071, 1114110, 1114111}
 VU == { [fam |-> "utf8", params |-> <<NatDigits(c)>>, input |-> Utf8(c)] : c \in Scalars }
@@ -68,7 +78,7 @@ Bare == { CSI \o <<117>>, CSI \o <<82>>, CSI \o <<77>>, CSI \o <<60, 77>>, CSI \
           APC \o ST, APC \o <<71>> \o ST, APC \o <<71, 59>> \o ST, APC \o <<71, 105, 61, 59>> \o ST, CSI \o <<50, 48, 48, 126>> \o CSI \o <<50, 48, 49, 126>>,
           CSI \o <<56, 59, 59, 116>> \o CSI \o <<52, 59, 59, 116>> }
 VB == { [fam |-> "bare", params |-> <<>>, input |-> pre \o x \o post] : x \in Bare, pre \in {<<>>, <<97>>}, post \in {<<>>, <<98>>} }
-Vec == SetToSeq(VB) \o SetToSeq(V2) \o SetToSeq(V1) \o SetToSeq(V4) \o SetToSeq(V3) \o SetToSeq(VU) \o SetToSeq(VI)
+Vec == SetToSeq(VB) \o SetToSeq(V2) \o SetToSeq(V1) \o SetToSeq(V4) \o SetToSeq(V3) \o SetToSeq(VO) \o SetToSeq(VU) \o SetToSeq(VI)
 ASSUME ndJsonSerialize(IOEnv.OUT, Vec)
 ASSUME PrintT(<<"GENERATED", Len(Vec)>>)
 VARIABLE x
